@@ -167,9 +167,14 @@ func runC19(env *Env, data map[string]any) *Outcome {
 				fail("`bookmarks info` of an unknown name succeeds", res.Stdout)
 			}
 		case "resolve":
-			arg := "@" + oracleName(nm)
+			// as typed: the name with its own `@` prefix(es) (one is added if it has none); a bare
+			// `@` and no argument at all both mean the unnamed (default) bookmark
+			arg := nm
+			if !strings.HasPrefix(arg, "@") {
+				arg = "@" + arg
+			}
 			args := []string{"total", "--decimal", "--no-style", "--no-warn", arg}
-			if oracleName(nm) == "default" && len(nm) == 0 {
+			if len(nm) == 0 && i%2 == 0 {
 				args = args[:len(args)-1] // no argument: the default bookmark
 			}
 			res = runCLI(env, CLIOpts{Now: mkTime(2021, 3, 4, 12, 0)}, args...)
